@@ -215,7 +215,11 @@ def run_sequence(sh, lab, cfg, ops, clocks, messages=None):
                 sh.violate("bar-width", record, "op #%d %r: frame %r has a bar segment of width %s, configured %d" % (
                     i, op, body, len(m.group(1)) if m else None, cfg["bw"]))
                 return False
-            cur = re.match(r"\s*(?:m\S*\s+)?(\d+)", body)
+            body_for_step = body
+            if fmt and "%message%" in fmt and messages:
+                shown_msg = re.sub(r"</?[a-z]+>", "", next((mm for mm in reversed(messages[: i + 1]) if mm is not None), "m0"))
+                body_for_step = body.replace(shown_msg, "", 1)
+            cur = re.match(r"\s*(?:m\S*\s+)?(\d+)", body_for_step)
             if not cur or int(cur.group(1)) != step:
                 sh.violate("shown-step", record, "op #%d %r: frame %r shows step %s, the bar is at %d" % (i, op, body, cur.group(1) if cur else None, step))
                 return False
@@ -234,6 +238,7 @@ def run_sequence(sh, lab, cfg, ops, clocks, messages=None):
                     return False
             if fmt and "%message%" in fmt and messages:
                 cur_msg = next((mm for mm in reversed(messages[: i + 1]) if mm is not None), "m0")
+                cur_msg = re.sub(r"</?[a-z]+>", "", cur_msg)  # messages may carry style tags
                 if cur_msg not in body:
                     sh.violate("message", record, "frame %r does not show the current message %r" % (body, cur_msg))
             # -- throttle -----------------------------------------------------------------
@@ -337,7 +342,7 @@ def run(sh, spec):
             if rng.random() < 0.7:
                 ops.append(("finish",))
             clocks = [rng.choice(CLOCKS) for _ in ops]
-            msgs = [rng.choice([None, None, "m", "message-long-" + "x" * rng.randint(0, 30), "mid"]) for _ in ops] if fmt else None
+            msgs = [rng.choice([None, None, "m", "message-long-" + "x" * rng.randint(0, 30), "mid", "<info>ok</info>", "<b>bold</b> and <comment>more</comment>"]) for _ in ops] if fmt else None
             nt = run_sequence(sh, lab, cfg, ops, clocks, msgs)
             sh.case((tuple(sorted(cfg.items(), key=str)), tuple(ops), tuple(clocks)), nt)
             if k < 1:
